@@ -1,13 +1,14 @@
 ID = "C20"
 TESTS = [
     T("nfs41sim", "TestC20NFS41ByteRangeLocks",
-      {"checks": 5000, "shards": 2, "timeout": 300, "args": ["-rapid.shrinktime=15s"]},
+      {"checks": 3500, "shards": 3, "timeout": 300, "args": ["-rapid.shrinktime=15s"]},
       {"checks": 30000, "shards": 5, "timeout": 1500}),
     T("nfs41sim", "TestC20Regress.*",
       {"checks": 1, "shards": 1, "timeout": 120},
       {"checks": 1, "shards": 1, "timeout": 120}, plain=True),
 ]
 ASSUMPTIONS = [
+    "nfs41: 'releases precisely the owner's bytes and nothing else' is observed through LOCKT by an observer lock-owner of a separate client that never holds a lock: after every step that closed, unlocked, freed or reclaimed lock state (and once before the final lease expiry) it tests each of the 13 units of the files concerned for READ and for WRITE; both answers are compared with the per-byte model (a unit held shared by others denies WRITE only, a unit held exclusively denies both, a free unit denies neither)",
     "nfs41: lock ranges begin and end at 14 points (offsets 0..6 and 2^64-7..2^64-1), so the byte space compresses to 13 units; ranges starting at offset 2^64-1 are not generated (the lock table documents non-empty ranges with an exclusive end <= 2^64-1, so byte 2^64-1 is not representable; counted as excluded)",
     "nfs41: owners are (client ID, lock-owner bytes); CLOSE / lease expiry / re-registration release all bytes the lock-owners of that open hold on that file (POSIX record-lock semantics: the lock table is keyed by owner and file)",
 ]
